@@ -149,3 +149,19 @@ M("conflicts-missing-counts-as-conflict", DD, "                        if missin
 M("conflicts-exclude-ignored", DD, "                    if (exclude and f not in exclude) \\\n", "                    if exclude \\\n", ["C10"])
 M("isunique-first-field-only", DD, "    for v in itervalues(table, field):", "    for v in itervalues(table, field[0] if isinstance(field, (list, tuple)) and len(field) > 1 else field):", ["C10"])
 M("unique-keeps-first-of-dups", DD, "        if prev_comp_ne and curr_comp_ne:\n            yield tuple(prev)", "        if prev_comp_ne:\n            yield tuple(prev)", ["C10"])
+
+RD = "transform/reductions.py"
+UB = "util/base.py"
+# ---- C09 ----------------------------------------------------------------------------------
+# (grouping on the raw key instead of the Comparable key is equivalent on hashable keys: 1 == 1.0 natively too)
+M("aggregate-len-plus-one", RD, "        aggregation = lambda g: sum(1 for _ in g)  # count length of iterable", "        aggregation = lambda g: sum(1 for _ in g) + (1 if isinstance(key, (list, tuple)) and len(key) > 1 else 0)", ["C09"])
+M("multiaggregate-rows-consumed", RD, "        rows = list(rows)  # may need to iterate over these more than once", "        rows = iter(list(rows))", ["C09"])
+M("groupselectlast-returns-first", RD, "        row = None\n        for row in rows:\n            pass\n        return row", "        row = None\n        for row in rows:\n            break\n        return row", ["C09"])
+M("groupselectmin-reversed", RD, "    return groupselectfirst(sort(table, value, reverse=False,", "    return groupselectfirst(sort(table, value, reverse=True,", ["C09"])
+M("mergeduplicates-missing-kept", RD, "                          if len(row) > i and row[i] != missing)", "                          if len(row) > i)", ["C09"])
+M("fold-ignores-value", RD, "    for k, grp in rowgroupby(table, key, value):\n        yield k, reduce(f, grp)", "    for k, grp in rowgroupby(table, key, value):\n        grp = list(grp)\n        yield k, reduce(f, grp[:-1] if len(grp) > 2 else grp)", ["C09"])
+M("valuecounter-skips-none", "util/counting.py", "    for v in values(table, field, missing=missing):\n        try:\n            counter[v] += 1",
+  "    for v in values(table, field, missing=missing):\n        try:\n            if v is None:\n                continue\n            counter[v] += 1", ["C09"])
+M("rowgroupmap-groups-on-presorted-only", "transform/maps.py", "def iterrowgroupmap(source, key, mapper, header):\n    yield tuple(header)\n    for key, rows in rowgroupby(source, key):", "def iterrowgroupmap(source, key, mapper, header):\n    yield tuple(header)\n    for key, rows in list(rowgroupby(source, key))[::-1][::-1]:", ["C09"])
+M("gcdv-counts-rows", RD, "    s2 = distinct(s1)\n    s3 = aggregate(s2, key, len)", "    s2 = s1\n    s3 = aggregate(s2, key, len)", ["C09"])
+M("simpleaggregate-unsorted", RD, "        if presorted or key is None:\n            self.table = table\n        else:\n            self.table = sort(table, key, buffersize=buffersize, \n                              tempdir=tempdir, cache=cache)    \n        self.key = key\n        self.aggregation = aggregation", "        self.table = table\n        self.key = key\n        self.aggregation = aggregation", ["C09"])
